@@ -407,7 +407,7 @@ func (s NSchema) judge(env EnumEnv, path []string, n *reflNode, res *vh.Result, 
 			if len(raw) == 0 {
 				res.Count("nested-property-not-judged")
 			} else {
-				sigs := explain(genDecl{P: p}, raw)
+				sigs := explain(genDecl{P: p}, raw, want, got)
 				if sigs == nil {
 					sigs = []string{fmt.Sprintf("C04 nested %s: reflected schema differs from the declared one at %s", shapeOf(p), strings.Join(collapse(raw, p.PK == PMap), " "))}
 				}
